@@ -668,3 +668,23 @@ impl<Ctx: OptCtx> LoweredToLir<'_, Ctx> {
         (items, calls.into_iter().map(|c| c.1).collect())
     }
 }
+
+
+#[cfg(feature = "verif-hooks")]
+impl<Ctx: OptCtx> LoweredToMir<'_, Ctx> {
+    /// Verification hook (C02): the LIR lowerer's layout / offset / generated
+    /// clone-drop-eq answers for every type of the compilation's type pool.
+    pub fn verif_c02_dump(&mut self) -> crate::verif_hooks::c02::Dump {
+        let mut runtime_functions = HashMap::new();
+        let mut ctx = lir::lower::LowerCtx {
+            runtime: &self.runtime.rt,
+            type_info: &mut self.type_info,
+            label_store: &mut self.label_store,
+            runtime_functions: &mut runtime_functions,
+            drops_to_generate: VecDeque::new(),
+            clones_to_generate: VecDeque::new(),
+            eq_to_generate: VecDeque::new(),
+        };
+        crate::verif_hooks::c02::dump_types(&mut ctx)
+    }
+}
